@@ -830,7 +830,7 @@ def token_verdict(tin, tout):
 
 def corpus_item(job):
     """worker: one source text through the pipeline"""
-    setup, natpath, cid, text, (soft, deadline), mctx = job
+    setup, natpath, cid, text, (soft, deadline), mctx, base_text = job
     if "~" in cid and soft and time.time() > soft:
         return {"id": cid, "bytes": len(text), "status": "left-out-budget", "paths": 0, "outputs": 0, "sub_paths": 0, "queries": 0, "solver_time": 0.0,
                 "steps": 0, "obligations": 0, "discharged": 0, "violations": [], "witness": {}, "fns": set(), "models": set(), "native_runs": 0,
@@ -840,8 +840,23 @@ def corpus_item(job):
     res = {"id": cid, "bytes": len(text), "status": "ok", "paths": 0, "outputs": 0, "sub_paths": 0, "queries": 0, "solver_time": 0.0,
            "steps": 0, "obligations": 0, "discharged": 0, "violations": [], "witness": {}, "fns": set(), "models": set(), "native_runs": 0,
            "doc_nodes": 0, "groups": 0, "sample": None}
-    # key suffix: the unit test for its own input, the mutation context for a mutant
+    # key suffix: the unit test for its own input, the mutation context for a mutant — unless the unit test's own input
+    # already violates the same obligation at that width (then the mutant only inherits it: keyed by the unit test)
     bid = mctx or base_id(cid)
+    inherited = {}
+
+    def suffix(kind, w):
+        if not mctx or base_text is None:
+            return bid
+        if w not in inherited:
+            kinds = set()
+            ob = nat.fmt(w, base_text)
+            if ob[0] == "ok":
+                kinds |= set(k for k, _ in token_verdict(nat.tokens(base_text)[0], nat.tokens(ob[1])[0]))
+                if nat.fmt(w, ob[1]) != ob:
+                    kinds.add("idempotence")
+            inherited[w] = kinds
+        return base_id(cid) if kind in inherited[w] else bid
 
     def viol(key, what, width, cmd, **extra):
         v = {"key": key, "layer": "corpus", "id": cid, "what": what, "text": text.decode("utf-8", "replace"), "text_hex": text.hex(), "width": width, "cmd": cmd}
@@ -922,7 +937,7 @@ def corpus_item(job):
             res["native_runs"] += 2
             for vk, desc in token_verdict(tin, tout):
                 failed.add("B3")
-                viol("%s/%s" % (vk, bid), "%s at W = %d: %s (input %r, output %r)" % (cid, w, desc, text, out), w, "fmt %d %s" % (w, hx(text)), eval=vk)
+                viol("%s/%s" % (vk, suffix(vk, w)), "%s at W = %d: %s (input %r, output %r)" % (cid, w, desc, text, out), w, "fmt %d %s" % (w, hx(text)), eval=vk)
             # B4: format the output again, W restricted to the widths that produced it
             kind2, d2 = nat.doc(out)
             res["native_runs"] += 1
@@ -950,7 +965,7 @@ def corpus_item(job):
                 failed.add("B4")
                 if not (o1 == ("ok", out) and o2 == ("ok", payload3)):
                     raise Inconclusive("the idempotence counterexample of %s at W = %d does not reproduce natively: %r then %r" % (cid, w3, o1, o2))
-                viol("idempotence/" + bid, "%s at W = %d: formatting the output again changes it: %r -> %r" % (cid, w3, out, payload3), w3,
+                viol("idempotence/" + suffix("idempotence", w3), "%s at W = %d: formatting the output again changes it: %r -> %r" % (cid, w3, out, payload3), w3,
                      "fmt %d %s" % (w3, hx(text)), eval="idempotence")
             if len(sample) < 2:
                 sample.append({"output": out.decode("utf-8", "replace"), "widths": width_range(cond), "paths": len(conds)})
@@ -1050,7 +1065,7 @@ def main2(tier, cfg, t0, setup, natpath):
     corpus, skipped = extract_corpus()
     if not corpus and only in ("", "corpus"):
         raise Inconclusive("no unit-test input found under dora-format/src (assert_source calls)")
-    items, n_mut, ctx_of = [], 0, {}
+    items, n_mut, ctx_of, base_of = [], 0, {}, {}
     if only in ("", "corpus"):
         for cid, text in corpus:
             items.append((cid, text))
@@ -1064,6 +1079,7 @@ def main2(tier, cfg, t0, setup, natpath):
             for mid, mtext, mc in ms:
                 items.append((mid, mtext))
                 ctx_of[mid] = mc
+                base_of[mid] = text
             n_mut += len(ms)
     nat.close()
     seen_texts, uniq = set(), []
@@ -1088,7 +1104,7 @@ def main2(tier, cfg, t0, setup, natpath):
             if per[k]:
                 rr.append(per[k].pop(0))
     uniq = base + rr
-    cres = common.fork_map(corpus_item, [(setup, natpath, cid, text, (soft, deadline), ctx_of.get(cid)) for cid, text in uniq], J)
+    cres = common.fork_map(corpus_item, [(setup, natpath, cid, text, (soft, deadline), ctx_of.get(cid), base_of.get(cid)) for cid, text in uniq], J)
     C = {"paths": 0, "outputs": 0, "sub_paths": 0, "queries": 0, "solver_time": 0.0, "steps": 0, "obligations": 0, "discharged": 0, "native_runs": 0}
     cviol, cwit, csamples, status = [], {}, [], {}
     invalid = [r["id"] for r in cres if r["status"] == "not-a-valid-source"]
